@@ -75,19 +75,24 @@ KnownFinding(C, s, ev, isSettled) ==
   ELSE "none"
 
 \* a raise inside the sizing search of a directly addressed security
+\* (also below a sub-strategy that pushes an amount down by its weights)
+PushKF(C, s, n, a) ==
+  LET hit == {x \in Nodes(C) : IsSec(C, x) /\ InSubtree(C, x, n) /\
+                 KF_C05(C, s, x, BudgetOf(C, s, x, n, a), OVF, TRUE) # "none"}
+  IN  IF hit = {} THEN "none"
+      ELSE LET x == CHOOSE y \in hit : TRUE
+           IN  KF_C05(C, s, x, BudgetOf(C, s, x, n, a), OVF, TRUE)
 RaiseKF(C, s, ev) ==
   IF ev.op = "allocate" /\ IsSec(C, ev.node) /\ s.t > 0
   THEN KF_C05(C, s, ev.node, ev.a, OVF, TRUE)
   ELSE IF ev.op = "allocate" /\ IsStrat(C, ev.node) /\ s.t > 0
-  THEN LET hit == {x \in Nodes(C) : IsSec(C, x) /\ InSubtree(C, x, ev.node) /\
-                     KF_C05(C, s, x, BudgetOf(C, s, x, ev.node, ev.a), OVF, TRUE) # "none"}
-       IN  IF hit = {} THEN "none"
-           ELSE LET x == CHOOSE y \in hit : TRUE
-                IN  KF_C05(C, s, x, BudgetOf(C, s, x, ev.node, ev.a), OVF, TRUE)
+  THEN PushKF(C, s, ev.node, ev.a)
   ELSE IF ev.op = "rebalance" /\ IsSec(C, ev.child) /\ s.t > 0 /\ ~C.fi[ev.node] /\ ~IsZero(ev.a)
   THEN KF_C05(C, s, ev.child,
               RSub(RMul(ev.a, IF IsNaN(ev.b) THEN s.sval[ev.node] ELSE ev.b),
                    RMul(s.swgt[ev.child], s.sval[ev.node])), OVF, TRUE)
+  ELSE IF ev.op = "rebalance" /\ IsStrat(C, ev.child) /\ s.t > 0 /\ ~C.fi[ev.node] /\ ~IsZero(ev.a)
+  THEN PushKF(C, s, ev.child, RebalanceAmount(C, s, ev.node, ev.a, ev.child, ev.b))
   ELSE "none"
 
 (***************************************************************************)
